@@ -490,6 +490,19 @@ func (tr *Tr) evalSpec(env *CEnv, sd *SpecDef, argEs []CExpr) (Value, types.Type
 			ph := smtName(fmt.Sprintf("%s?%d", sd.Params[i].Name, tr.fresh))
 			subst = append(subst, [2]string{ph, sc.T})
 			v = Sc{T: ph, Bool: sc.Bool}
+		} else if sl, ok := v.(Sl); ok && sd.Opaque {
+			// slice arguments of opaque specs: each compound component becomes a placeholder, so that the hidden function
+			// has the same signature whatever the shape of the actual argument
+			hold := func(c, tag string) string {
+				if !strings.HasPrefix(c, "(") && !isLiteral(c) {
+					return c
+				}
+				tr.fresh++
+				ph := smtName(fmt.Sprintf("%s.%s?%d", sd.Params[i].Name, tag, tr.fresh))
+				subst = append(subst, [2]string{ph, c})
+				return ph
+			}
+			v = Sl{Arr: hold(sl.Arr, "arr"), Off: hold(sl.Off, "off"), Len: hold(sl.Len, "len"), Cap: hold(sl.Cap, "cap")}
 		}
 		penv.vars[sd.Params[i].Name] = EV{V: v, T: t}
 	}
